@@ -143,9 +143,24 @@ impl X {
     /// Build through sea-query's public expression API.
     pub fn build(&self) -> SimpleExpr {
         match self {
-            X::Col(c) => Expr::col(Alias::new(*c)).into(),
-            X::Int(i) => Expr::val(*i).into(),
-            X::Text(s) => Expr::val(s.as_str()).into(),
+            // the equivalent spellings of a column / value operand
+            X::Col(c) => match crate::apply::route(4) {
+                0 => Expr::column(Alias::new(*c)),
+                1 => SimpleExpr::Column(Alias::new(*c).into_column_ref()),
+                2 => Expr::expr(Expr::col(Alias::new(*c))).into(),
+                _ => Expr::col(Alias::new(*c)).into(),
+            },
+            X::Int(i) => match crate::apply::route(4) {
+                0 => Expr::value(*i),
+                1 => SimpleExpr::from(*i),
+                2 => SimpleExpr::Value(Value::from(*i)),
+                _ => Expr::val(*i).into(),
+            },
+            X::Text(s) => match crate::apply::route(3) {
+                0 => Expr::value(s.as_str()),
+                1 => SimpleExpr::from(s.as_str()),
+                _ => Expr::val(s.as_str()).into(),
+            },
             X::Null => SimpleExpr::Keyword(Keyword::Null),
             X::Bool(v) => SimpleExpr::Constant((*v).into()),
             X::Not(e) => e.build().not(),
